@@ -22,6 +22,14 @@ func (r readWrapper) Read(p []byte) (n int, err error) {
 type bufWriter struct {
 	buf []byte
 	w   io.Writer
+	// written is the number of bytes of the chunks that were written completely.
+	written int64
+}
+
+// limitedReadCloser reads a prefix of a file and closes the file.
+type limitedReadCloser struct {
+	io.Reader
+	io.Closer
 }
 
 func (w *bufWriter) Write(p []byte) (n int, err error) {
@@ -32,7 +40,12 @@ func (w *bufWriter) Write(p []byte) (n int, err error) {
 	w.buf = w.buf[:len(p)]
 	copy(w.buf, p)
 
-	return w.w.Write(w.buf)
+	n, err = w.w.Write(w.buf)
+	if err == nil {
+		w.written += int64(n)
+	}
+
+	return n, err
 }
 
 func (r *Repo) Store(_ context.Context, path string, content io.Reader) (err error) {
@@ -47,8 +60,10 @@ func (r *Repo) Store(_ context.Context, path string, content io.Reader) (err err
 	defer func() {
 		if errors.Is(err, os.ErrNotEnoughSpace) {
 			err = model.NotEnoughSpaceError{
-				Err:    err,
-				Start:  f,
+				Err: err,
+				// Only the completely written chunks: the chunk that hit the limit may
+				// have been written partially and is replayed as a whole by Middle.
+				Start:  limitedReadCloser{io.LimitReader(f, w.written), f},
 				Middle: bytes.NewReader(w.buf),
 				End:    content,
 			}
